@@ -58,6 +58,10 @@ def generate(rng, tier) -> dict:
             spec["foff"] = -10.0 * 8 / max(8, nchans)
         if big:
             spec["big"] = True
+            if rng.random() < 0.6 and nbits >= 8:
+                spec["mode"] = "blank128"  # whole written blocks of >= 4096 zero bytes, also as the LAST blocks of the product
+                counts[0] = rng.choice([256, 384, 256 + rng.randint(1, 100)])
+                spec["nsamps"] = counts
         N = sum(counts)
         r = rng.random()
         if r < 0.5:
